@@ -134,6 +134,7 @@ def main():
     ap.add_argument("--runs", type=int, default=0)
     ap.add_argument("--jobs", type=int, default=1)
     ap.add_argument("--check", default=None, help="run this check instead of meta.property")
+    ap.add_argument("--out", default=None, help="write results here instead of RESULTS.json")
     ap.add_argument("--confirm", nargs="*", help="candidate directories to confirm (no check run)")
     a = ap.parse_args()
     if a.confirm:
@@ -152,9 +153,10 @@ def main():
             r = f.result()
             print(json.dumps(r), flush=True)
             out.append(r)
-    if not a.only and not a.check:
-        with open(os.path.join(SEEDED, "RESULTS.json"), "w") as f:
-            json.dump({"tier": a.tier, "results": out}, f, indent=1)
+    if (not a.only and not a.check) or a.out:
+        with open(a.out or os.path.join(SEEDED, "RESULTS.json"), "w") as f:
+            json.dump({"tier": a.tier, "verif_seed": int(os.environ.get("VERIF_SEED", "0")),
+                       "results": out}, f, indent=1)
             f.write("\n")
     caught = sum(1 for r in out if r["status"] == "caught")
     print(f"seeded changes caught {caught}/{len(out)}")
